@@ -239,28 +239,6 @@ def _patch_crosshair():
 
     LazyIntSymbolicStr.__eq__ = str_eq
 
-    # Engine optimisation (no change of meaning): a slice of a symbolic string whose code points are all concrete ints is
-    # returned as a native str.  Substrings such as a reference label `state.src[a:b]` then go through lower()/upper()/re at
-    # native speed instead of CrossHair's symbolic string algorithms (27 s per call for normalizeReference).
-    orig_getitem = LazyIntSymbolicStr.__getitem__
-
-    def str_getitem(self, i):
-        ret = orig_getitem(self, i)
-        with NoTracing():
-            if isinstance(i, slice) and type(ret) is LazyIntSymbolicStr:
-                pts = ret._codepoints
-                n = _concrete_len(pts)
-                if n is not None and n <= 4096:
-                    out = []
-                    for k in range(n):
-                        c = pts[k]
-                        if type(c) is not int:
-                            return ret
-                        out.append(c)
-                    return "".join(map(chr, out))
-        return ret
-
-    LazyIntSymbolicStr.__getitem__ = str_getitem
 
     # CrossHair bug: ShellMutableMap (the model behind dict(...) under tracing) iterates overwritten keys last, whereas a real
     # dict keeps the position of a key whose value is replaced (Token.attrSet("alt", ...) at render time reordered attributes).
